@@ -13,6 +13,7 @@ import (
 	"reflect"
 	"sort"
 	"strings"
+	"sync/atomic"
 
 	"github.com/onflow/cadence"
 	"github.com/onflow/cadence/common"
@@ -35,6 +36,7 @@ type Event struct {
 }
 
 type Result struct {
+	Trace  []TraceEvent
 	Value  cadence.Value
 	Err    error
 	Class  string // ok | user:<type> | internal:<type> | external
@@ -59,6 +61,15 @@ type World struct {
 	acctID map[common.Address]uint64
 
 	Signers []common.Address
+
+	// trace of host callbacks + runtime hook events of the current execution
+	id          uint64
+	cfg         runtime.Config
+	iface       *Traced
+	trace       []TraceEvent
+	callCount   map[string]int
+	RecordTrace bool     // record every callback (not only faults and hook events)
+	Faults      []*Fault // fault plan for the next execution(s)
 	// Random supplies bytes for ReadRandom; nil = zeros.
 	Random func([]byte)
 
@@ -78,6 +89,9 @@ func NewWorldWithConfig(cfg runtime.Config) *World {
 		acctID: map[common.Address]uint64{},
 	}
 	w.RT = runtime.NewRuntime(cfg)
+	w.cfg = cfg
+	w.id = atomic.AddUint64(&worldCounter, 1)
+	w.callCount = map[string]int{}
 	w.Ledger = ru.NewTestLedger(nil, func(owner, key, value []byte) {
 		w.writes = append(w.writes, Write{Owner: string(owner), Key: string(key), Value: append([]byte(nil), value...)})
 	})
@@ -136,8 +150,14 @@ func NewWorldWithConfig(cfg runtime.Config) *World {
 			return nil
 		},
 	}
+	w.iface = &Traced{Interface: w.RI, w: w}
 	return w
 }
+
+var worldCounter uint64
+
+// Close is kept for symmetry; worlds are only registered for hook routing while executing.
+func (w *World) Close() {}
 
 // Unquote strips the quotes ProgramLog puts around logged strings.
 func Unquote(s string) string {
@@ -190,6 +210,9 @@ func (e Event) String() string {
 
 func (w *World) begin() {
 	w.logs, w.events, w.writes, w.uuids = nil, nil, nil, nil
+	w.trace = nil
+	w.callCount = map[string]int{}
+	registerWorld(w) // hook events are routed to this world while it executes
 	w.RI.Programs = map[runtime.Location]*runtime.Program{}
 }
 
@@ -201,14 +224,31 @@ func (w *World) snapshotCodes() map[common.AddressLocation][]byte {
 	return m
 }
 
-func (w *World) ctx(loc common.Location, useVM bool) runtime.Context {
-	return runtime.Context{
-		Interface:        w.RI,
+func (w *World) ctx(loc common.Location, engine string, script bool) runtime.Context {
+	c := runtime.Context{
+		Interface:        w.iface,
 		Location:         loc,
-		UseVM:            useVM,
+		UseVM:            engine != "interp",
 		MemoryGauge:      w.MemoryGauge,
 		ComputationGauge: w.ComputationGauge,
 	}
+	if engine == "vmopt" {
+		c.Environment = newPeepholeEnvironment(w.cfg, script)
+		if c.Environment == nil {
+			panic("engine vmopt needs the harness to be built with -tags verif")
+		}
+	}
+	return c
+}
+
+// Engines lists the execution engines: tree-walking interpreter, bytecode VM, VM with peephole optimisation.
+var Engines = []string{"interp", "vm", "vmopt"}
+
+func engineOf(useVM bool) string {
+	if useVM {
+		return "vm"
+	}
+	return "interp"
 }
 
 func (w *World) nextTxLoc() common.TransactionLocation {
@@ -217,6 +257,7 @@ func (w *World) nextTxLoc() common.TransactionLocation {
 	n := w.next
 	for i := 0; i < 8; i++ {
 		l[31-i] = byte(n >> (8 * i))
+		l[7-i] = byte(w.id >> (8 * i))
 	}
 	return l
 }
@@ -227,6 +268,7 @@ func (w *World) nextScriptLoc() common.ScriptLocation {
 	n := w.next
 	for i := 0; i < 8; i++ {
 		l[31-i] = byte(n >> (8 * i))
+		l[7-i] = byte(w.id >> (8 * i))
 	}
 	return l
 }
@@ -234,10 +276,16 @@ func (w *World) nextScriptLoc() common.ScriptLocation {
 // Tx executes a transaction. Go panics escaping the runtime are caught and
 // reported with Class "crash".
 func (w *World) Tx(src string, signers []common.Address, useVM bool, args ...[]byte) (res Result) {
+	return w.TxE(src, signers, engineOf(useVM), args...)
+}
+
+// TxE executes a transaction on the named engine ("interp", "vm", "vmopt").
+func (w *World) TxE(src string, signers []common.Address, engine string, args ...[]byte) (res Result) {
 	w.begin()
 	w.Signers = signers
 	saved := w.snapshotCodes()
 	defer func() {
+		unregisterWorld(w)
 		if r := recover(); r != nil {
 			res.Err = fmt.Errorf("escaped panic: %v", r)
 			res.Class = "crash"
@@ -245,11 +293,11 @@ func (w *World) Tx(src string, signers []common.Address, useVM bool, args ...[]b
 		if res.Err != nil {
 			w.Codes = saved
 		}
-		res.Logs, res.Events, res.Writes, res.UUIDs = w.logs, w.events, w.writes, w.uuids
+		res.Logs, res.Events, res.Writes, res.UUIDs, res.Trace = w.logs, w.events, w.writes, w.uuids, w.trace
 	}()
 	err := w.RT.ExecuteTransaction(
 		runtime.Script{Source: []byte(src), Arguments: args},
-		w.ctx(w.nextTxLoc(), useVM),
+		w.ctx(w.nextTxLoc(), engine, false),
 	)
 	res.Err = err
 	res.Class = Classify(err)
@@ -257,19 +305,25 @@ func (w *World) Tx(src string, signers []common.Address, useVM bool, args ...[]b
 }
 
 func (w *World) Script(src string, useVM bool, args ...[]byte) (res Result) {
+	return w.ScriptE(src, engineOf(useVM), args...)
+}
+
+// ScriptE executes a script on the named engine.
+func (w *World) ScriptE(src string, engine string, args ...[]byte) (res Result) {
 	w.begin()
 	saved := w.snapshotCodes()
 	defer func() {
+		unregisterWorld(w)
 		if r := recover(); r != nil {
 			res.Err = fmt.Errorf("escaped panic: %v", r)
 			res.Class = "crash"
 		}
 		w.Codes = saved
-		res.Logs, res.Events, res.Writes, res.UUIDs = w.logs, w.events, w.writes, w.uuids
+		res.Logs, res.Events, res.Writes, res.UUIDs, res.Trace = w.logs, w.events, w.writes, w.uuids, w.trace
 	}()
 	v, err := w.RT.ExecuteScript(
 		runtime.Script{Source: []byte(src), Arguments: args},
-		w.ctx(w.nextScriptLoc(), useVM),
+		w.ctx(w.nextScriptLoc(), engine, true),
 	)
 	res.Value = v
 	res.Err = err
